@@ -68,6 +68,11 @@ pub fn hayson_roundtrip(v: &V) -> Verdict {
     if s.as_bytes() != b.as_slice() {
         return Err(("encode-string-vs-vec".into(), format!("to_string {s} vs to_vec {}", String::from_utf8_lossy(&b))));
     }
+    // a clone has the same text
+    match guarded(|| serde_json::to_string(&lv.clone())) {
+        Ok(Ok(t2)) if t2 == s => {}
+        other => return Err(("clone-encodes-differently".into(), format!("original {s}, clone {other:?}"))),
+    }
     // the three encodings through the three decoders
     let texts: Vec<(&str, String)> = vec![("to_string", s.clone()), ("to_value", t.to_string())];
     for (ename, text) in &texts {
